@@ -14,14 +14,14 @@ structure Ctx where
   cap    : Nat
   parked : List Nat            -- calls blocked in Recv on this context (FIFO)
   closed : Bool
-deriving Repr
+deriving Repr, BEq
 
 structure State where
   ctxs    : List Ctx           -- context 0 is the socket's own (master) context
   closed  : Bool
   pipes   : List Nat
   defCap  : Nat
-deriving Repr
+deriving Repr, BEq
 
 def init : State := { ctxs := [{ id := 0, subs := [], q := [], cap := 128, parked := [], closed := false }], closed := false, pipes := [], defCap := 128 }
 
